@@ -12,7 +12,8 @@ RULE = ("Bounded-exhaustive: the C01 program space (AST size <= S) with two extr
         "with the shadow model (entering manager not listed; exiting manager listed last, is_exiting, obj identical). "
         "evaluations = probe observations; distinct_nontrivial = distinct (program, kind, interpreter).")
 ASSUMPTIONS = [
-    "managers define __exit__/__aexit__ as plain methods with a first positional parameter; every second manager implements them through differently named functions (`__exit__ = close`, `__aexit__` returning another method's coroutine)",
+    "managers define __exit__/__aexit__ as plain methods with a first positional parameter; sync managers alternate with ones whose `__exit__ = close`; async managers rotate over three implementations: async def methods, `__aexit__` as a plain function returning another method's coroutine, and plain `__aenter__`/`__aexit__` returning the manager itself as a hand-written awaitable iterator (its __next__ is called through the C iterator slot, not resumed inline)",
+    "the code that runs below an exit is a method of the manager (first argument = the manager): that argument is the documented way obj of the exiting manager is recovered (lowlevel.contexts_active_in_frame, next_inner); with a foreign awaitable object handed back by __aexit__ the first argument of the frame below is that awaitable - outside the statement's 'inside (or below) __exit__/__aexit__'",
     "AST size bound as stated in coverage.bounds; <= 2 statements per block",
 ]
 
